@@ -1572,7 +1572,16 @@ mod imp {
              first), three connections, many quick open/finish cycles, random scripts; one interpreter keeps a model (live / released how) \
              and judges every response: a next for a released id is an error response (never data), a cancel for a released id disturbs \
              nobody, two live streams never share an id, every live stream delivers exactly its producer's bytes and ends once; id reuse \
-             itself is only counted",
+             itself is only counted. \
+             Side-car families (own threads next to the pool). Producer-option sweep: every field of StreamOpts one at a time around a \
+             seeded base point (zstd_level over the zstd library's whole range incl. negatives, 0, 1, 3, 19, max; chunk_bytes 1 and \
+             several MiB; session_depth 0 and far beyond the grid), each with both compression settings, every producer kind, both \
+             transports; the usual oracle with the harness's own zstd decoder. Fragmenting-source family: reader producers over sources \
+             that return short reads (random short reads, 1-byte reads, 1000-byte records, Read::chain of a header and bodies, \
+             socket-like bursts, ErrorKind::Interrupted) and writer producers with the same schedules as writes/flushes, healthy and \
+             failing (after a short read, on a chunk boundary, before the first byte, after the last byte); the usual oracle. \
+             Slow-consumer family: the raw client sends no next for 6.5 s (thorough 12 s / 35 s) in the middle of a stream of several \
+             hundred 1..64-byte chunks, then pulls on; oracle: exactly the producer's bytes and one end marker, or an error response",
         );
         let mut cfgs = grid(args, true, |i, _| if args.thorough() { vec![Tr::Tcp, Tr::Ws] } else if i % 3 == 0 { vec![Tr::Tcp, Tr::Ws] } else { vec![Tr::Tcp] });
         let mut rng = Rng::new(args.seed ^ 0x0C09_5AFE);
@@ -1592,12 +1601,37 @@ mod imp {
         by.extend(cfgs);
         let cfgs = by;
         quiet_panics(true);
+        // the side-car families work on their own threads while the pool works
+        let side = [slowc::spawn(args, true), frag::spawn(args, true), popts::spawn(args, true)];
         run_pool(&mut rep, args, cfgs, raw_work);
+        for f in side {
+            sidecar::join(f, &mut rep);
+        }
         quiet_panics(false);
+        sidecar_summary(&mut rep, args, true);
         if rep.get_count("streams_completed") == 0 && rep.inconclusive.is_empty() {
             rep.inconclusive("no stream was pulled");
         }
         rep
+    }
+
+    /// What the side-car families saw, and "observed nothing" when one of them saw nothing.
+    fn sidecar_summary(rep: &mut Report, args: &Args, raw: bool) {
+        rep.set("producer_option_values_swept", json!(popts::swept_values(args.thorough()).iter().map(|s| s.tag()).collect::<Vec<_>>()));
+        rep.set("fragmenting_source_shapes", json!(frag::MODES.iter().map(|m| m.tag()).collect::<Vec<_>>()));
+        rep.set("slow_consumer_stalls_ms", json!(slowc::stalls_ms(args)));
+        if !rep.inconclusive.is_empty() {
+            return;
+        }
+        if rep.get_count("producer_option_streams_exact") == 0 {
+            rep.inconclusive("producer-option family: no stream was pulled");
+        }
+        if rep.get_count(if raw { "fragmenting_source_streams_exact" } else { "fragmenting_source_pulls_exact" }) == 0 || rep.get_count("fragmenting_source_short_reads_before_the_end") == 0 {
+            rep.inconclusive("fragmenting-source family: no stream from a source with short reads was pulled");
+        }
+        if rep.get_count("slow_consumer_stalls_completed") == 0 {
+            rep.inconclusive("slow-consumer family: no consumer sat through its stall");
+        }
     }
 
     // ================================================================== stage pullers
@@ -2252,7 +2286,22 @@ mod imp {
              35 s and 65 s; plus a short stall first on the same connection) and then finishes; pulled with pull_to_vec, pull_consume, \
              pull_to_file, pull_value, pull_typed_slice, pull_complex_slice and their async forms over Client, AsyncClient and \
              WebSocketClient; oracle: Ok carries exactly the producer's bytes (a failure is tolerated and counted, Ok with other bytes or \
-             a published file with other bytes never)",
+             a published file with other bytes never). \
+             Side-car families (own threads next to the pool). Producer-option sweep: every field of StreamOpts one at a time around a \
+             seeded base point (zstd_level over the zstd library's whole range incl. negatives, 0, 1, 3, 19, max; chunk_bytes 1 and \
+             several MiB; session_depth 0 and far beyond the grid), each with both compression settings, every producer kind, and every \
+             puller (pull_to_vec, pull_consume, pull_to_file, pull_to_beve_file, pull_to_beve_zst_file, pull_to_file_trailer_verified, \
+             pull_to_file_verified_async, pull_value / pull_typed_slice / pull_complex_slice and the async forms) over Client, AsyncClient \
+             and WebSocketClient; oracle: exactly the logical bytes; the committed .zst file decompresses (harness decoder) to the logical \
+             bytes; the digest was fed what was committed. Fragmenting-source family: reader producers over sources that return short \
+             reads (random, 1-byte, 1000-byte records, Read::chain, socket-like bursts, Interrupted) and writer producers with the same \
+             schedules, healthy and failing after a short read / on a chunk boundary / at byte 0 / after the last byte, pulled with \
+             pull_to_vec, pull_consume, pull_to_file and async forms; oracle: exact bytes, a source failure is an Err. Slow-consumer \
+             family: the pull_consume / pull_consume_async closure, or the digest Write fed by pull_to_file_verified_async / \
+             pull_to_file_trailer_verified(_async), stops reading ONCE for 6.5 s (thorough: 12 s and 35 s) after 5-50% of a stream of \
+             several hundred 1..64-byte chunks (zstd: thousands), then reads on, over Client, AsyncClient and WebSocketClient; oracle: Ok \
+             carries / the committed file holds exactly the producer's bytes, verify is only called on a digest fed exactly the content, a \
+             clean Err is tolerated and counted",
         );
         let mut cfgs = grid(args, false, |i, _| if args.thorough() { vec![Tr::Tcp, Tr::Ws] } else if i % 3 == 0 { vec![Tr::Ws] } else { vec![Tr::Tcp] });
         let mut rng = Rng::new(args.seed ^ 0x0C09_9011);
@@ -2280,10 +2329,15 @@ mod imp {
         quiet_panics(true);
         // the slow-producer family sleeps through its stalls on its own threads while the pool works
         let slow_family = slow::spawn(args);
+        let side = [slowc::spawn(args, false), frag::spawn(args, false), popts::spawn(args, false)];
         run_pool(&mut rep, args, cfgs, pullers_work);
         slow::join(slow_family, &mut rep);
+        for f in side {
+            sidecar::join(f, &mut rep);
+        }
         quiet_panics(false);
         repe::verif_hooks::set_probe(None);
+        sidecar_summary(&mut rep, args, false);
         if rep.get_count("pulls_matching") == 0 && rep.inconclusive.is_empty() {
             rep.inconclusive("no pull completed");
         }
@@ -2292,4 +2346,8 @@ mod imp {
 
     include!("c09_bystander.rs");
     include!("c09_slow.rs");
+    include!("c09_sidecar.rs");
+    include!("c09_popts.rs");
+    include!("c09_frag.rs");
+    include!("c09_slowc.rs");
 }
